@@ -1442,7 +1442,7 @@ class Engine:
         name = rng.choices(NAMES, NAME_WEIGHTS)[0] if rng.random() > p["p_bad_name"] else rng.choice(BAD_NAMES)
         if op == "add_resource":
             r = rng.random()
-            ntypes = rng.choice([0, 1, 1, 2, 2, 3])
+            ntypes = rng.choice([0, 1, 1, 2, 2, 3]) if rng.random() > 0.04 else len(POOL)  # (now and then under every type of the pool at once)
             types: Any = rng.sample(range(len(POOL)), ntypes)
             cmd = {"op": "add_resource", "cid": cid, "vid": self.fresh(), "vtype": rng.randrange(Pool.N_CLASSES), "name": name, "types": types,
                    "types_single": rng.random() < 0.5, "desc": rng.choice([None, "d1", "d2"]), "via": rng.choice(["method", "shortcut"]),
@@ -1465,7 +1465,7 @@ class Engine:
                     cmd["teardown_value"] = rng.randrange(len(NOT_CALLABLE))
             return cmd
         if op == "add_factory":
-            ntypes = rng.choice([1, 1, 2, 2, 3])
+            ntypes = rng.choice([1, 1, 2, 2, 3]) if rng.random() > 0.04 else len(POOL)
             types = rng.sample(range(len(POOL)), ntypes)
             cmd = {"op": "add_factory", "cid": cid, "fid": self.fresh(), "name": name, "types": types, "types_single": rng.random() < 0.5,
                    "annotated": rng.random() < 0.3, "annotated_meta": rng.random() < 0.3, "desc": rng.choice([None, "fd"]), "is_async": rng.random() < 0.5,
